@@ -349,6 +349,9 @@ def gen(ctx):
         cases.append(_case(s, rng.choice(DOC_ENZ), rng.choice([50, 1000, len(s), 7]), mn,
                            rng.choice([mn, 299, 300, 301, 1000, 5000]), rng.random() < 0.5, rng.random() < 0.2,
                            ["large-params"]))
+    # the runner copies the cases at the quarter points (the last one included) into the evidence file: keep the
+    # tiny corner cases at the end so that no 70 000-residue case or 10^5-peptide result is copied there
+    cases.sort(key=lambda c: c["tags"][0] == "corner")
     return cases
 
 
